@@ -284,7 +284,9 @@ class Runner:
         self.scripts = {}
         self.script_proj = {}
 
-    def engine(self, kind):
+    def engine(self, kind, factories=False):
+        if factories:       # through strengths.engine_collection (same library file, hence the same native globals)
+            return build.make_engine_via_collection(kind)
         return build.make_engine(kind, lib=self.lib)
 
     def script(self, c):
@@ -377,7 +379,7 @@ class Runner:
         return {"id": h["id"], "ev": ev, "meta": {}}
 
     def _child(self, h, refs, f):
-        engines = {obj: self.engine(kind) for obj, kind in h["kinds"].items()}
+        engines = {obj: self.engine(kind, bool(h.get("factories"))) for obj, kind in h["kinds"].items()}
         lib = self.lib
         own = {}            # obj -> (cid, kind) of its last setup
         glob = None         # (cid, kind) of the globally last setup
@@ -603,6 +605,19 @@ class Runner:
             if du["quantity"] != want_units["quantity"] or tu["time"] != want_units["time"]:
                 ok = False
                 why.append("trajectory is not in the script's units: %s / %s, script says %s" % (du["quantity"], tu["time"], want_units))
+        # the trajectory as a file: what is loaded back has one time per recorded sample and the same data
+        try:
+            from strengths import load_rdtrajectory, save_rdtrajectory
+            base = os.path.join(util.subdir("traj_files"), "t_%d_%d" % (os.getpid(), ns))
+            save_rdtrajectory(out, base, separate_data=bool(ns % 2))
+            back = load_rdtrajectory(base + ".json")
+            if (back.nsamples() != ns or not same_bits(back.t.value, out.t.value) or not same_bits(back.data.value, out.data.value)
+                    or len(back.data) != back.nsamples() * back.nspecies() * back.ncells()):
+                ok = False
+                why.append("saved and re-loaded trajectory differs (times, data or shape)")
+        except Exception as e:  # noqa
+            ok = False
+            why.append("save / load of the trajectory raised %r" % (e,))
         d["recT"], d["recN"], d["dataok"] = recT, recN, ok
         if why:
             d["why"] = why[:4]
